@@ -165,6 +165,12 @@ func valEqualSyntactic(a, b Val) bool {
 	case VHeapMap:
 		y, ok := b.(VHeapMap)
 		return ok && x == y
+	case VSub:
+		y, ok := b.(VSub)
+		return ok && x.Ref == y.Ref && x.Elem == y.Elem && x.Path == y.Path
+	case VMapRef:
+		y, ok := b.(VMapRef)
+		return ok && x.T == y.T && x.K == y.K && x.Kind == y.Kind
 	case VRegex:
 		y, ok := b.(VRegex)
 		return ok && x == y
@@ -303,6 +309,13 @@ func (fx *FuncCtx) iteVal(c Term, a, b Val) Val {
 		// same pointer expected
 	case VOpaque:
 		return a
+	case VMapRef:
+		switch y := b.(type) {
+		case VMapRef:
+			return VMapRef{T: fx.name(sortInt, "mm", sIte(c, x.T, y.T)), K: x.K, V: x.V, Kind: x.Kind}
+		case VNil:
+			return VMapRef{T: fx.name(sortInt, "mm", sIte(c, x.T, "0")), K: x.K, V: x.V, Kind: x.Kind}
+		}
 	case VRunes:
 		y := b.(VRunes)
 		return VRunes{fx.name(sortSeq, "mrs", sIte(c, x.Seq, y.Seq)), fx.name(sortInt, "mrn", sIte(c, x.N, y.N))}
@@ -387,16 +400,6 @@ func (fx *FuncCtx) merge2(a, b *State) *State {
 	for _, o := range objs {
 		n.env[o] = fx.iteVal(a.pc, a.env[o], b.env[o])
 	}
-	if a.heap != nil || b.heap != nil {
-		n.heap = map[string]Term{}
-		for k, va := range a.heap {
-			if vb, ok := b.heap[k]; ok {
-				n.heap[k] = sIte(a.pc, va, vb)
-				if va == vb {
-					n.heap[k] = va
-				}
-			}
-		}
-	}
+	fx.mergeHeaps(n, a, b)
 	return n
 }
